@@ -7,7 +7,7 @@ patch="$1"; shift
 id=$$
 R=/tmp/mrepo-$id; S=/tmp/msim-$id; V=/tmp/mverif-$id
 git -C /repo worktree add -q "$R" HEAD || exit 2
-trap 'git -C /repo worktree remove --force "$R" 2>/dev/null; git -C /repo worktree prune; rm -rf "$S" "$V"; echo "[sandbox removed]"' EXIT
+trap 'mkdir -p /verif/replays/sandbox; cp "$V"/replays/*.json /verif/replays/sandbox/ 2>/dev/null; git -C /repo worktree remove --force "$R" 2>/dev/null; git -C /repo worktree prune; rm -rf "$S" "$V"; echo "[sandbox removed]"' EXIT
 ( cd "$R" && git apply "$patch" ) || { echo "patch does not apply"; exit 2; }
 mkdir -p "$S" "$V"
 cp -r /verif/sim/src /verif/sim/Cargo.toml /verif/sim/Cargo.lock /verif/sim/.cargo "$S"/
